@@ -1,6 +1,6 @@
 """Registry: build configurations, injection sites, harnesses, checks."""
 
-JOBS = 8          # concurrent CBMC processes per check (memory bound: winners use 1-3 GB)
+JOBS = 6          # concurrent CBMC processes per check (memory bound: winners use 1-3 GB)
 MEM_GB = 20       # RLIMIT_AS per process
 
 # slice/array `==` is CBMC's builtin memcmp loop: give that one loop its own bound so that the global
@@ -75,12 +75,22 @@ H("riter_zero_chains_terminates", "revision_vec", ["C14", "C04"], "quick",
   desc="revisions() on a key with zero chains ends immediately (no endless Some([]))",
   bounds="empty RevisionVec<u8,u8>", unwind=3, timeout=300, covers=["reached"])
 
+SMALL_CMP = [[r"^memcmp$", 4]]  # right names <= 2 bytes, toy KEM keys 2 bytes: no 32-byte comparison in these harnesses
+SITES["keys_model"] = dict(file="keys_model.rs", include=["common.rs"], parent="src/core/primitives.rs",
+                           modpath="core::primitives::verif_k2", modname="verif_k2")
+for _n in ["k_refresh_m1_u00", "k_refresh_m2_u11", "k_refresh_m1_u11", "k_refresh_m1_u12", "k_refresh_m2_u13",
+           "k_refresh_m1_u02", "k_refresh_drops_unknown_right", "k_rekey_chain1", "k_rekey_chain2",
+           "k_mpk_publishes_activated_fronts", "k_rekey_unknown_last", "k_rekey_unknown_first", "k_prune_chain2",
+           "k_update_existing_right", "k_update_new_right", "k_update_fails_bad_first", "k_update_fails_bad_last"]:
+    H(_n, "keys_model", ["G2"], "quick", build="model", timeout=900, desc="probe", bounds="probe", loops=SMALL_CMP)
+
 TRAP_LOOPS = [[r"toy_group::ToyPoint|toy_group::ToyScalar", 3]]  # loops over traps / markers: tracing level 1 = 2 elements
 H("g1_kem_classic_1x1", "primitives_model", ["G1"], "quick", build="model", unwind=2, timeout=900, loops=TRAP_LOOPS,
   desc="probe", bounds="probe", covers=["decaps returned Some"])
 
 CHECKS = {
     "G1": dict(),
+    "G2": dict(),
     "C04": dict(
         bounds_note="R-iter: RevisionVec<u8,u8> instantiation, <=3 chains x <=3 elements, shape concrete per harness",
         outside="chains longer than 3, more than 3 chains, the RightSecretKey instantiation of the iterator",
